@@ -1,4 +1,29 @@
-"""C16 - Type-annotation validation agrees with subtype compatibility (DESIGN 4/C16)."""
+"""C16 - Type-annotation validation agrees with subtype compatibility (DESIGN 4/C16).
+
+Signatures (the last path component is the trigger predicate of the *smallest* sub-pair on which
+is_type_compatible and the reference still disagree, so one mechanism keeps one token across the levels):
+
+  pair:{accepted-invalid|rejected-valid}/<why>    reference relation vs is_type_compatible on one ordered pair
+  law:<law>[/<variant>]                            an algebraic law broken by is_type_compatible alone
+  pipe:{accepted-incompatible|rejected-compatible}/<why>                 Pipeline(...) verdict explained by a pair-level <why>
+  pipe:{...}/<edge kinds>/pair-level-agrees        Pipeline(...) wrong although is_type_compatible is right on every edge
+  pipe:rejected-with-validation-off/..., pipe:exc-on-compatible:..., pipe:wrong-exception-on-incompatible:...
+  triple:.../<why>                                 disagreement on a literal triple of tests/test_typing.py
+
+<why> tokens seen on the tree this check was written against (mechanisms in pipefunc/typing.py):
+  only-target-annotated, only-target-array, law:annotated-transparent/target:*, .../{source,both}:plain-source
+        -> _handle_generic_types swaps the arguments when only the required type is Annotated
+  generic-arity-mismatch:tuple, law:tuple-arity
+        -> _compare_generic_type_args zips argument lists of different length
+  tuple-variadic-into-fixed, tuple-fixed-into-variadic (pair / law / pipe)
+        -> same function treats `...` of tuple[T, ...] as an ordinary argument
+  only-source-annotated:{union,optional}-target, law:annotated-transparent/source:union*-source
+        -> a union hidden behind Annotated in the source is matched member-wise too late (union target first)
+  array-vs-annotated, law:annotated-transparent/{target,both}:{array,union-of-array}-source
+        -> _compare_annotated_types drops the incoming element type before descending into a required union
+  pipe:*ValueError@typing.py:is_object_array_type
+        -> `array_type, _ = get_args(tp)` on Annotated with more than one metadata item (reduction edges only)
+"""
 from __future__ import annotations
 
 import functools
@@ -67,7 +92,7 @@ _BUILT: dict = {}
 
 def build(t):
     """Term -> real annotation object (public constructors only)."""
-    key = (canon(t), t[2] if t[0] == "union" else None)
+    key = t          # the exact term (incl. the spelling of unions): what is built never depends on earlier cases
     if key in _BUILT:
         return _BUILT[key]
     k = t[0]
@@ -239,10 +264,9 @@ def law(v, name, ok, text):
 
 def _srcclass(t):
     """Trigger predicate of the Annotated-transparency laws: what the (bare) source is."""
-    ms = t[1] if t[0] == "union" else (t,)
-    if any(m[0] == "annot" and M.elem(m) is not None for m in ms):
-        return "array-source"
-    return "union-source" if t[0] == "union" else "plain-source"
+    if t[0] == "union":
+        return "union-of-array-source" if any(M.elem(m) is not None for m in t[1]) else "union-source"
+    return "array-source" if M.elem(t) is not None else "plain-source"
 
 
 def check_laws(v, rng, a, b):
